@@ -153,6 +153,10 @@ def run(ctx, prop=PROP, judge=judge_c04, title="peak connections in flight <= fa
             samples.append({"n": n, "fanout": f, "spurious_wakeups": ru.spur, "events": " ".join(ru.model_events())[:400], "peak": ru.peak})
         if nsched >= 5:
             break
+    nexec = 0
+    if prop == "C04" and nsched < 5:
+        nexec, ebad = exec_concurrency(ctx, quick)
+        bad += ebad
     nsig = 0
     if prop == "C03" and nsched < 5:
         nsig, sbad = interrupted_runs(ctx, eng, r, quick)
@@ -160,7 +164,7 @@ def run(ctx, prop=PROP, judge=judge_c04, title="peak connections in flight <= fa
     have_input = any(v["kind"] != "no-failing-input-found" for v in ctx.violations)
     vlib.report_proof_break(ctx, have_input)
     cov = vlib.proof_coverage(ctx, {
-        "runs_with_non_aborting_interrupts": nsig,
+        "runs_with_non_aborting_interrupts": nsig, "real_exec_concurrency_runs": nexec,
         "evaluations": len(runs), "distinct_nontrivial": len(set(c for c in cases if len(c) > 60)),
         "traces_validated_against_impl": nacc,
         "rule": "runs of the whole unmodified pdsh program (all sources, main renamed) under a token scheduler interposed at link time on pthread_*/poll/read/sleep/time/fputs/exit, with a scripted transport module loaded by pdsh's own loader; N in 1..9 targets, fanout 1..N+1, seeded random schedules with 0-4 spurious condition-variable wake-ups, plus for small N every schedule with a bounded number of deviations from the base policy (another thread, a spurious wake-up or a clock tick at any choice point); each trace must be a run of the Coq transition system and is judged for: " + title + "; distinct = distinct event trace",
@@ -169,6 +173,46 @@ def run(ctx, prop=PROP, judge=judge_c04, title="peak connections in flight <= fa
     return ctx.finish(cov, ["interleavings at the granularity of the wrapped calls (a data race between two plain loads/stores is invisible)",
                             "POSIX semantics of mutex/condvar implemented by the scheduler (spurious wake-ups included)",
                             "the transport is the scripted module; the kernel is not involved"])
+
+
+def exec_concurrency(ctx, quick):
+    """real children through the exec transport: each command closes its three streams at once, notes when it starts and
+    when it ends, and runs for a second; "in flight" lasts until the command is gone, so at no instant may more than f of
+    the [start, end] intervals overlap"""
+    import realeng, time
+    real = realeng.Real(ctx, tag="real04")
+    logd = os.path.join(ctx.scratch, "conc04")
+    nbad, nrun = 0, 0
+    for (n, f) in ([(6, 2)] if quick else [(6, 2), (7, 3), (5, 1), (9, 4)]):
+        import shutil
+        shutil.rmtree(logd, ignore_errors=True)
+        os.makedirs(logd)
+        cmd = "exec 0<&- 1>&- 2>&-; date +%%s%%N > %s/%%h.s; sleep 1; date +%%s%%N > %s/%%h.e" % (logd, logd)
+        rc, o, e = real.run(["-R", "exec", "-f", str(f), "-w", "h[1-%d]" % n, "sh", "-c", cmd], timeout=60)
+        nrun += 1
+        time.sleep(1.5)         # a command released too early may still be writing its end stamp
+        iv = []
+        for k in range(1, n + 1):
+            try:
+                iv.append((int(open("%s/h%d.s" % (logd, k)).read()), int(open("%s/h%d.e" % (logd, k)).read())))
+            except (OSError, ValueError):
+                iv.append(None)
+        problem = None
+        if rc != 0 or any(x is None for x in iv):
+            problem = "pdsh exit %s, start/end stamps %s: a command was not run to its end" % (rc, ["ok" if x else "missing" for x in iv])
+        else:
+            pts = sorted([(a, 1) for a, b in iv] + [(b, -1) for a, b in iv])
+            cur = peak = 0
+            for _, d in pts:
+                cur += d
+                peak = max(peak, cur)
+            if peak > f:
+                problem = "%d commands were running at the same instant with fanout %d" % (peak, f)
+        if problem:
+            nbad += 1
+            ctx.violation("input", case={"transport": "exec", "n": n, "f": f, "command": cmd}, expected="at most %d commands alive at any instant" % f,
+                          observed=problem, engine="exec", detail=problem + " (commands that close their streams early and run for a second)")
+    return nrun, nbad
 
 
 def interrupted_runs(ctx, eng, r, quick):
